@@ -128,6 +128,8 @@ def clause_env_module(interp):
         'integral': Builtin('integral', lambda it, f, a, b:
                             __import__('pvc.models', fromlist=['x'])
                             .integral_model(it, f, a, b), pass_interp=True),
+        'ext_call': Builtin('ext_call', lambda it, name, k=-1: [
+            c for c in it.ext_calls if c[0] == name][k][1], pass_interp=True),
         'isclose': Builtin('isclose', lambda it, a, b, tol=None:
                            it.ops.equals(a, b), pass_interp=True),
     }
@@ -276,7 +278,11 @@ class Engine:
         for nm, sp in specs.items():
             if getattr(sp, 'computed', False):
                 continue
-            args[nm] = sp.sym(B, nm)
+            try:
+                args[nm] = sp.sym(B, nm)
+            except PyRaise as e:
+                raise Unsupported('constructing the input %r raised %r'
+                                  % (nm, e.exc))
             env.vars[nm] = args[nm]
         # leaves from constructors count as inputs; side obligations raised
         # while building inputs are preconditions of the constructors
@@ -776,7 +782,7 @@ class Engine:
                     % (c.name, cfg_label(cfg), sel.outcome, r['outcome'],
                        json.dumps(a)))
                 continue
-            if sel.outcome != 'return':
+            if sel.outcome != 'return' or c.target.endswith('.__init__'):
                 continue
             try:
                 ok = compare_value(sel.result, r['result'], envn,
